@@ -292,6 +292,35 @@ static int meta_op(int nt, char **tok) {
   if (!strcmp(op, "altertable") && nt >= 4) { r = gd_alter_linterp(D, tok[1], strcmp(tok[2], "-") ? tok[2] : NULL, strcmp(tok[3], "-") ? tok[3] : NULL, nt >= 5 ? atoi(tok[4]) : 0); DONE("altertable"); }
   if (!strcmp(op, "alterraw") && nt >= 5) { int ti = tfind(tok[2]); r = gd_alter_raw(D, tok[1], ti >= 0 ? T[ti].t : GD_NULL, atoi(tok[3]), atoi(tok[4])); DONE("alterraw"); }
   if (!strcmp(op, "validate") && nt >= 2) { r = gd_validate(D, tok[1]); DONE("validate"); }
+  if (!strcmp(op, "validateall")) {
+    /* gd_validate and a short read of every field, top level and metafields: each must answer with success or a GetData error */
+    unsigned n = gd_nentries(D, NULL, GD_ALL_ENTRIES, GD_ENTRIES_HIDDEN), bad = 0, okc = 0;
+    const char **l = gd_entry_list(D, NULL, GD_ALL_ENTRIES, GD_ENTRIES_HIDDEN);
+    char **names = malloc((n + 1) * sizeof(char *)); unsigned k = 0;
+    for (; l && k < n && l[k]; k++) names[k] = strdup(l[k]);
+    for (unsigned i = 0; i < k; i++) {
+      int v = gd_validate(D, names[i]);
+      if (v == 0) okc++; else if (v > 0 || v < -40) bad++;
+      double buf[8]; gd_getdata(D, names[i], 0, 0, 0, 4, GD_FLOAT64, buf);
+      unsigned nm = gd_nentries(D, names[i], GD_ALL_ENTRIES, GD_ENTRIES_HIDDEN);
+      if (gd_error(D) == 0 && nm > 0) {
+        const char **ml = gd_entry_list(D, names[i], GD_ALL_ENTRIES, GD_ENTRIES_HIDDEN);
+        for (unsigned j = 0; ml && j < nm && ml[j]; j++) { char full[8192]; snprintf(full, sizeof full, "%s/%s", names[i], ml[j]); gd_validate(D, full); }
+      }
+      free(names[i]);
+    }
+    free(names);
+    printf("validateall n=%u ok=%u %s", k, okc, bad ? "BAD" : "fine"); tail(); return 1;
+  }
+  if (!strcmp(op, "etable")) {
+    /* D->entry[] in table order, names in hex (internal invariant of the bisection) */
+    fputs("etable", stdout);
+    for (unsigned i = 0; i < D->n_entries; i++) {
+      putchar(' ');
+      for (const unsigned char *q = (const unsigned char *)D->entry[i]->field; *q; q++) printf("%02x", *q);
+    }
+    tail(); return 1;
+  }
   if (!strcmp(op, "lists")) {
     /* consistency of list/count functions: gd_nentries == length of gd_entry_list for type x flags, top level and every parent */
     static const int types[] = { GD_ALL_ENTRIES, GD_VECTOR_ENTRIES, GD_SCALAR_ENTRIES, GD_ALIAS_ENTRIES, GD_RAW_ENTRY, GD_LINCOM_ENTRY,
@@ -314,7 +343,8 @@ static int meta_op(int nt, char **tok) {
           /* unique and can be looked up */
           for (unsigned j = i + 1; j < c; j++) if (!strcmp(l[i], l[j])) { bad = 1; snprintf(why, sizeof why, "duplicate %s", l[i]); break; }
           char full[8192]; if (parents[p]) snprintf(full, sizeof full, "%s/%s", parents[p], l[i]); else snprintf(full, sizeof full, "%s", l[i]);
-          if (!bad && gd_entry_type(D, full) == GD_NO_ENTRY) { bad = 1; snprintf(why, sizeof why, "listed name cannot be looked up: %s", full); }
+          /* a listed name is a field, or an alias that is reported dangling (gd_alias_target still names its target) */
+          if (!bad && gd_entry_type(D, full) == GD_NO_ENTRY && gd_alias_target(D, full) == NULL) { bad = 1; snprintf(why, sizeof why, "listed name cannot be looked up: %s", full); }
         }
       }
       /* value lists line up with name lists */
@@ -332,6 +362,28 @@ static int meta_op(int nt, char **tok) {
           }
         }
       }
+    }
+    /* the unfiltered-by-type list without GD_ENTRIES_HIDDEN is exactly the full list minus the hidden names
+       (catches caches left stale by gd_hide / gd_unhide) */
+    for (unsigned p = 0; p < np && !bad; p++) {
+      const char **full = gd_entry_list(D, parents[p], GD_ALL_ENTRIES, GD_ENTRIES_HIDDEN);
+      unsigned nfull = 0; while (full && full[nfull]) nfull++;
+      char **fc = malloc((nfull + 1) * sizeof(char *));
+      for (unsigned i = 0; i < nfull; i++) fc[i] = strdup(full[i]);
+      const char **vis = gd_entry_list(D, parents[p], GD_ALL_ENTRIES, 0);
+      unsigned nvis = 0; while (vis && vis[nvis]) nvis++;
+      unsigned want = 0;
+      for (unsigned i = 0; i < nfull && !bad; i++) {
+        char nm[8192]; if (parents[p]) snprintf(nm, sizeof nm, "%s/%s", parents[p], fc[i]); else snprintf(nm, sizeof nm, "%s", fc[i]);
+        int hid = gd_hidden(D, nm);
+        if (hid < 0) continue;
+        int listed = 0; for (unsigned j = 0; j < nvis; j++) if (!strcmp(vis[j], fc[i])) listed = 1;
+        if (!hid) want++;
+        if (hid && listed) { bad = 1; snprintf(why, sizeof why, "hidden field %s is in the list without GD_ENTRIES_HIDDEN", nm); }
+        if (!hid && !listed) { bad = 1; snprintf(why, sizeof why, "visible field %s is missing from the list", nm); }
+      }
+      for (unsigned i = 0; i < nfull; i++) free(fc[i]);
+      free(fc);
     }
     /* aliases resolve or dangle; reference is a RAW */
     const char *ref = gd_reference(D, NULL);
